@@ -229,3 +229,16 @@ pub fn transform_varblocks(
         );
     }
 }
+
+/// Verification only: the SSE2 inverse transform of one varblock.
+#[cfg(jxl_oxide_verif)]
+pub fn verif_transform_sse2(coeff: &mut MutableSubgrid<'_>, dct_select: TransformType) {
+    transform_x86_64_sse2(coeff, dct_select)
+}
+
+/// Verification only: the SSE4.1 inverse transform of one varblock (panics if unsupported).
+#[cfg(jxl_oxide_verif)]
+pub fn verif_transform_sse41(coeff: &mut MutableSubgrid<'_>, dct_select: TransformType) {
+    assert!(is_x86_feature_detected!("sse4.1"));
+    unsafe { transform_x86_64_sse41(coeff, dct_select) }
+}
